@@ -321,6 +321,20 @@ theorem stage_append {a b : List Bytes} {wa wb : List (Key × Bytes)}
         cases ha
         simp [stage, hw, ih hws]
 
+/-- a committed batch leaves every key it does not name alone (in particular the reserved keys) -/
+theorem get?_applyWrites_other {k : Key} {ws : List (Key × Bytes)} (s : Store)
+    (h : ∀ w ∈ ws, w.1 ≠ k) : get? k (applyWrites ws s) = get? k s := by
+  induction ws generalizing s with
+  | nil => rfl
+  | cons w ws ih =>
+    show get? k (applyWrites ws (put w.1 w.2 s)) = get? k s
+    rw [ih _ (fun w' hw' => h w' (by simp [hw'])), get?_put_other _ _ (Ne.symm (h w (by simp)))]
+
+theorem get?_applyWrites_reserved {k : Key} {ws : List (Key × Bytes)} (s : Store)
+    (hk : isReserved k = true) (h : ∀ w ∈ ws, isReserved w.1 = false) :
+    get? k (applyWrites ws s) = get? k s :=
+  get?_applyWrites_other s (fun w hw e => by have := h w hw; rw [e, hk] at this; cases this)
+
 /-! ## re-execution -/
 
 theorem put_applyWrites_absorb (k : Key) (v v' : Bytes) (ws : List (Key × Bytes)) (t : Store) :
@@ -352,17 +366,16 @@ theorem applyWrites_idem (ws : List (Key × Bytes)) (s : Store) :
 
 /-! ## histories: the writes that reach the hashed key space (vocabulary of `Spec.C15`) -/
 
-/-- the key/value writes that reach the hashed key space: those of executed blocks **and**, as the
-code stands, one write of `/finalizedHeight` per successful `SetFinal` -/
+/-- the key/value writes that reach the hashed key space: those of the executed blocks and nothing
+else (`SetFinal` and `InitChain` write reserved keys only) -/
 def writesOf : Op → List (Key × Bytes)
   | .exec txs => (match stage txs with | .ok ws => ws | .error _ => [])
-  | .final h => if h = 0 then [] else [(finalKey, dec h)]
   | _ => []
 
 def writes (ops : List Op) : List (Key × Bytes) := ops.flatMap writesOf
 
 
-theorem finalKey_not_reserved : isReserved finalKey = false := by decide
+theorem finalKey_reserved : isReserved finalKey = true := by decide
 
 theorem writesOf_not_reserved (op : Op) : ∀ w ∈ writesOf op, isReserved w.1 = false := by
   cases op with
@@ -371,11 +384,6 @@ theorem writesOf_not_reserved (op : Op) : ∀ w ∈ writesOf op, isReserved w.1 
     split
     · next ws h => exact stage_not_reserved h
     · simp
-  | final h =>
-    simp only [writesOf]
-    split
-    · simp
-    · intro w hw; simp at hw; subst hw; exact finalKey_not_reserved
   | _ => simp [writesOf]
 
 theorem step_sorted {s : St} (op : Op) (hs : Sorted s.store) : Sorted (step s op).store := by
@@ -414,10 +422,10 @@ theorem step_user {s : St} (op : Op) (hs : Sorted s.store) :
     · next e h => simp [h, applyWrites]
     · next ws h => simp only [h]; exact user_applyWrites (stage_not_reserved h) hs
   | final h =>
-    simp only [step, setFinal, writesOf]
+    simp only [step, setFinal, writesOf, applyWrites, List.foldl_nil]
     split
     · rfl
-    · exact user_put_user _ finalKey_not_reserved hs
+    · exact user_put_reserved _ _ finalKey_reserved
   | inject tx => simp only [step, injectTx, writesOf]; split <;> rfl
   | getTxs => rfl
   | reopen => rfl
